@@ -52,7 +52,7 @@ var c01CycleUses = []string{"strfmt(x, \"%v\", w)", "printf(\"%v\\n\", w)", "str
 	"x = w\nset_measurement(x)", "x = w\nq = load_json(x)", "x = w\nrename(y, x)", "x = w\nset_tag(x)", "x = w\nadd_key(x)", "if w { p(1) }", "p(!w, w + 1)", "p(w[0:1], w[0])"}
 
 var c01Subjects = []string{"nil", "true", "7", "-9223372036854775807", "2.5", "nan", `""`, `"text"`, `"héllo wörld"`, `"[1,2"`, `"%41%zz"`,
-	`"<a id='1'><b>x</b><b>y</b></a>"`, `"2021-05-27 06:54:14.760 UTC"`, `"select * from t where id = 1"`, "[1, \"a\", [2]]", `{"k": 1}`, "[]", "void()"}
+	`"<a id='1'><b>x</b><b>y</b></a>"`, `"2021-05-27 06:54:14.760 UTC"`, `"select * from t where id = 1"`, "[1, \"a\", [2]]", `{"k": 1}`, "[]", "void()", `"caf\xc3"`, `"\xe4\xb8"`}
 
 func (c01) Plan(tier string, seed int64) []mon.Workload {
 	n := int64(4000)
@@ -140,7 +140,7 @@ func (k c01) runMalformed(c *mon.Ctx, workload string, i int64) {
 var c01Stores = []string{"add_key(k, %s)", "v = %s\nadd_key(v)\nrename(k, v)", "set_tag(k, \"x\")\nadd_key(k, %s)", "add_key(k, %s)\nset_tag(k)",
 	"add_key(k, %s)\ncast(k, \"str\")", "add_key(k, %s)\ncast(k, \"int\")", "add_key(k, %s)\ntrim(k)", "add_key(k, %s)\nstrfmt(k, \"%%v\", k)",
 	"add_key(k, %s)\nrename(k2, k)\nrename(k, k2)", "add_key(k, nil)\nset_tag(k, \"v\")\nadd_key(j, %s)", "add_key(k, %s)\nuppercase(k)", "add_key(k, %s)\ndrop_key(k)\nadd_key(k)"}
-var c01StoreVals = []string{"nil", "true", "7", "2.5", "\"text\"", "\"\"", "[1, \"a\", [2]]", "[]", "{\"a\": 1}", "{}", "void()", "-false", "\"[1,2]\""}
+var c01StoreVals = []string{"nil", "true", "7", "2.5", "\"text\"", "\"\"", "[1, \"a\", [2]]", "[]", "{\"a\": 1}", "{}", "void()", "-false", "\"[1,2]\"", "\"x\\xff\"", "\"世\\xe4\\xb8\""}
 var c01Consumers = []string{"p(len(k))", "p(k[0:1])", "p(k[::-1])", "p(k[0])", "for e in k { p(e) }", "p(k + 1)", "p(k + \"s\")", "p(1 in k)", "p(\"a\" in k)",
 	"p(!k, -k)", "p(k == k, k < 1)", "x = k\nx[0] = 1\np(x)", "k[0] = 1", "k += 1", "if k { p(1) }", "trim(k)", "cast(k, \"float\")", "uppercase(k)",
 	"strfmt(z, \"%%v %%d %%s\", k, k, k)", "set_tag(k)", "rename(z, k)\np(z)", "default_time(k)", "xml(k, \"/a\", z)", "p(load_json(k))", "replace(k, \"a\", \"b\")",
@@ -150,7 +150,7 @@ var c01Consumers = []string{"p(len(k))", "p(k[0:1])", "p(k[::-1])", "p(k[0])", "
 func hostilePoint(c *mon.Ctx, variant int) (*input.Point, string) {
 	r := c.Sub(fmt.Sprint("pt", variant))
 	vals := []any{nil, true, false, int64(0), int64(math.MaxInt64), int64(math.MinInt64), int(5), int8(-3), int32(7), uint(9), uint8(200), uint16(65535),
-		uint32(1 << 31), uint64(math.MaxUint64), float32(1.5), float64(2.5), math.NaN(), math.Inf(-1), "", "text", "héllo", " 12 ", "%zz", "<a><b>1</b></a>",
+		uint32(1 << 31), uint64(math.MaxUint64), float32(1.5), float64(2.5), math.NaN(), math.Inf(-1), "", "text", "héllo", " 12 ", "%zz", "<a><b>1</b></a>", "caf\xc3", "x\xff", "\xe4\xb8",
 		[]byte("bytes"), []any{int64(1), "x"}, map[string]any{"k": 1}, struct{ A int }{1}, time.Unix(5, 0), []string{"s"}, int16(-1), "2021-05-27 06:54:14.760 UTC"}
 	fields := map[string]any{}
 	tags := map[string]string{}
@@ -264,7 +264,9 @@ func (c01) build(c *mon.Ctx, workload string, i int64) (main []*gt.T, lib []*gt.
 	s.Idents = []string{"a", "b", "v", "w", "f1", "f2", "t1", "message", "_", "nosuch", "x y"}
 	s.BoundedLoops = true
 	s.NoMulti = c.R.Intn(4) != 0
-	s.Strs = append(s.Strs, "%d %s", "[1,2]", "{\"a\":1}", "a%20b", strings.Repeat("long", 1000))
+	s.Strs = append(s.Strs, "%d %s", "[1,2]", "{\"a\":1}", "a%20b", strings.Repeat("long", 1000),
+		// text cut inside a multi-byte character, stray high bytes (what a truncated log line looks like)
+		"caf\xc3", "x\xff", "\xe4\xb8", "\xffz", "\xf0\x9f\x98")
 	ba := &gen.BuiltinArgs{R: c.R, Keys: gen.KeyPool, Attr: true}
 	ba.Expr = func() *gt.T { return s.Expr(1 + c.R.Intn(2)) }
 	depth := 0
